@@ -535,3 +535,7 @@ def r04_python(chk, conv):
                    expected='mass kernel and laminate use the same sign of the reference-surface offset',
                    got='kernel sign %s, argument %s, laminate sign %+d' % (s_k, txt, s_lam), detail=detail,
                    sample='%s(%s): kernel convention %s, laminate %+d' % (kname, txt, s_k, s_lam))
+
+
+def r08_python(chk):
+    pass
